@@ -56,6 +56,9 @@ var migratedExtensionKeys = []cbc.Key{
 }
 
 func normalizeItem(item *org.Item) {
+	if item == nil {
+		return
+	}
 	// 2023-08-25: Migrate identities to extensions
 	// Pending removal after migrations completed.
 	idents := make([]*org.Identity, 0)
